@@ -453,7 +453,25 @@ def r12(ctx):
         raise AnalysisBroken('C15.R12: only %d assignments of the destination found' % n)
 
 
+def r18(ctx):
+    ctx.rule('C15.R18', 'an answer is chosen from what is registered now: DirectProtocolHandler::getAnswer reads m_answerByKey for '
+             'every telegram and writes no data member except the response it prepares (m_response) - a remembered result of '
+             'the previous lookup does not see a registration made in between', minimum=1)
+    fb = ctx.fb
+    fn = fb.fn('ebusd::DirectProtocolHandler::getAnswer')
+    ctx.touch(fn)
+    w = sorted(set(fn.key(lhs).split('[')[0] for nid, d, rhs, op, lhs in fn.assignments() if lhs is not None and fn.key(lhs).startswith('this.')))
+    for c in fn.calls():
+        v = fn.nodes[c]
+        if v['k'] == 'CXXOperatorCallExpr' and v.get('op') == '=' and v.get('args') and fn.key(v['args'][0]).startswith('this.'):
+            w.append(fn.key(v['args'][0]))
+    w = sorted(set(w))
+    other = [x for x in w if x != 'this.m_response']
+    ctx.ob('C15.R18', fn, fn.body, not other, 'members written by getAnswer', 'only m_response: %s%s' % (not other, '' if not other else ' (also %s)' % ', '.join(other)))
+
+
 def run(ctx):
+    r18(ctx)
     import rules.common as _cmm
     ctx.rule('C15.R16', 'a mask for a 64 bit value is computed in 64 bits: where the sources of this property combine a 64 bit integer (a key) by &, | or ^ with an operand the compiler widens from 32 bits or less, that operand contains no shift or complement with a non-constant value - ~(0xff << 8*(3-len)) in int clears the whole upper half of the key (length, source, destination, command) for the last shortening', minimum=6)
     _cmm.wide_mask_rule(ctx, 'C15.R16', lambda f: f.relfile.startswith(('src/lib/ebus/protocol',)), 6)
